@@ -101,6 +101,9 @@ type G struct {
 	viewState *chain.State
 	view      *monitor.View
 
+	// file is the trace file name reported in findings (defaults to the generated name).
+	file string
+
 	// RTPoints: after how many commits a genesis round trip is taken (genesis family sampling).
 	rtAt map[int]bool
 	// badPct is the percentage of deliberately invalid variants in the random op streams.
@@ -112,14 +115,42 @@ func traceFileName(family string, n int) string {
 	return fmt.Sprintf("traces/trace_%s_%03d.json", family, n)
 }
 
+// Cfg identifies one history. Sub is set when a family (genesis, determinism) borrows the
+// generator of another family; RTPoints > 0 asks for that many sampled genesis round trips.
+type Cfg struct {
+	Family   string
+	N        int
+	Seed     uint64
+	Tier     string
+	Sub      string
+	RTPoints int
+}
+
 // NewG creates the chain of one history. opts.GenesisTime is defaulted by chain.
-func NewG(family string, n int, seed uint64, tier string, opts chain.Options) *G {
-	id := fmt.Sprintf("%s_%03d", family, n)
-	rec := chain.NewRecorder(id, seed, opts)
-	g := &G{Family: family, N: n, Seed: seed, Tier: tier, R: common.NewRng(seed), Rec: rec, App: rec.App, Stats: newStats(), badPct: 22}
-	g.Chk = monitor.NewChecker(rec.Trace, traceFileName(family, n), family)
+func NewG(c Cfg, opts chain.Options) *G {
+	id := fmt.Sprintf("%s_%03d", c.Family, c.N)
+	if c.Sub != "" {
+		id += "(" + c.Sub + ")"
+	}
+	rec := chain.NewRecorder(id, c.Seed, opts)
+	g := &G{Family: c.Family, N: c.N, Seed: c.Seed, Tier: c.Tier, R: common.NewRng(c.Seed), Rec: rec, App: rec.App, Stats: newStats(), badPct: 22}
+	g.Chk = monitor.NewChecker(rec.Trace, traceFileName(c.Family, c.N), c.Family)
 	g.now = rec.App.Options().GenesisTime
+	if c.RTPoints > 0 {
+		r := common.NewRng(c.Seed ^ 0x67656e65736973)
+		g.rtAt = map[int]bool{}
+		for i := 0; i < c.RTPoints; i++ {
+			g.rtAt[2+r.Intn(9)] = true
+		}
+	}
 	return g
+}
+
+func (g *G) fileName() string {
+	if g.file != "" {
+		return g.file
+	}
+	return traceFileName(g.Family, g.N)
 }
 
 // V returns the typed view of the current state.
@@ -217,7 +248,7 @@ func (g *G) account(it *chain.Item, res chain.StepResult) {
 		c[2]++
 		g.rejects++
 		if !knownPanics[short] {
-			g.Stats.Panics = append(g.Stats.Panics, fmt.Sprintf("%s: %s @%s#%d", short, clip(res.PanicValue, 160), traceFileName(g.Family, g.N), it.Seq))
+			g.Stats.Panics = append(g.Stats.Panics, fmt.Sprintf("%s: %s @%s#%d", short, clip(res.PanicValue, 160), g.fileName(), it.Seq))
 		}
 	}
 	g.steps++
@@ -239,7 +270,7 @@ func (g *G) Finish() *Result {
 	}
 	tr := g.Rec.Finish()
 	h := sha256.Sum256([]byte(strings.Join(g.hash, "\n")))
-	return &Result{Family: g.Family, N: g.N, Seed: g.Seed, Trace: tr, File: traceFileName(g.Family, g.N), Stats: g.Stats,
+	return &Result{Family: g.Family, N: g.N, Seed: g.Seed, Trace: tr, File: g.fileName(), Stats: g.Stats,
 		Violations: g.Chk.Out, Exercised: g.Chk.Exercised, Counters: g.Chk.Counters, Hash: hex.EncodeToString(h[:]),
 		Nontrivial: g.okWrites > 0 && g.rejects > 0, Steps: g.steps, Ops: g.ops}
 }
